@@ -1,4 +1,5 @@
 import Driver.C03
+import Driver.C15
 /-!
 `lvdriver`: reads one case per line (tab separated, first field = operation), replays it
 through the Lean model M and the specification S, and prints one answer per line:
@@ -16,6 +17,9 @@ def dispatch (line : String) : String :=
     | "codec" => C03.codec args
     | "wire" => C03.wireOp args
     | "estep" => C03.estepOp args
+    | "parse" => C15.parseOp args
+    | "rr" => C15.rrOp args
+    | "sinfo" => C15.sinfoOp args
     | _ => "BADOP"
   | [] => "BADLINE"
 
